@@ -3,7 +3,7 @@
 Stateless depth-first exploration over decision prefixes: every path is re-executed from the
 entry following a recorded list of choices; z3 decides feasibility at every new symbolic choice.
 """
-import re, time, itertools, collections, os, sys
+import os, re, time, itertools, collections, os, sys
 import z3
 from .parse import parse_file, split_top
 from .srcindex import SrcIndex, last_ident
@@ -168,12 +168,39 @@ class Run:
         eng=self.eng; eng.queries+=1; t=time.time()
         self.solver.push(); self.solver.add(extra)
         r=self.solver.check(); m=self.solver.model() if r==z3.sat else None
+        smt2=None
+        eng.obl_queries=getattr(eng,'obl_queries',0)+1
+        rate=eng.second_solver_rate
+        if rate and r!=z3.unknown and (eng.obl_queries*2654435761)%(1<<32)%rate==0: smt2=self.solver.to_smt2()
         self.solver.pop(); eng.solver_s+=time.time()-t
         if r==z3.unknown: raise Unsupported('solver unknown at obligation')
+        if smt2 is not None: eng.second_opinion(smt2,r)
         return r,m
 
 class Engine:
+    def second_opinion(self,smt2,r):
+        """re-decide a sampled obligation query with cvc5 (an independent solver); disagreement is never tolerated"""
+        import subprocess
+        st=self.second_solver
+        st['asked']+=1
+        # z3 5.x prints the SMT-LIB 2.7 names; cvc5 1.0 knows the older ones
+        smt2='(set-logic ALL)\n'+smt2.replace('ubv_to_int','bv2nat').replace('int_to_bv','int2bv')
+        try:
+            p=subprocess.run(['cvc5','--lang','smt2','--tlimit=3000'],input=smt2.encode(),stdout=subprocess.PIPE,stderr=subprocess.PIPE,timeout=15)
+            out=p.stdout.decode(errors='replace').strip().split('\n')[0].strip() if p.stdout else ''
+            if 'error' in (p.stdout+p.stderr).decode(errors='replace').lower() and out not in ('sat','unsat'): out='error'
+        except Exception as ex: out='error'
+        if out not in ('sat','unsat'):
+            st['undecided']+=1
+            if os.environ.get('VERIF_DUMP_UNDECIDED') and st['undecided']<=2: open('/tmp/undecided_%d_%d.smt2'%(os.getpid(),st['undecided']),'w').write(smt2)
+            return
+        if (out=='sat')!=(r==z3.sat):
+            st['disagree']+=1
+            raise Unsupported('second solver (cvc5) disagrees with z3 on an obligation query: z3=%s cvc5=%s'%(r,out))
+        st['agree']+=1
     def __init__(self,mirpath,repo='/repo',timeout_ms=10000):
+        self.second_solver={'asked':0,'agree':0,'disagree':0,'undecided':0}
+        self.second_solver_rate=int(os.environ.get('VERIF_SECOND_SOLVER_RATE','0') or 0)
         t=time.time()
         self.bodies,self.nst,errs,errsamples=parse_file(mirpath)
         if errs: raise Unsupported('MIR parse errors: %r'%(errsamples,))
